@@ -170,6 +170,25 @@ theorem exRules_accepted : Accepted false PestModel.C06.exRules exOptimized wher
 /-- non-vacuity: the recursive list grammar of C06 is `Accepted`. -/
 example : ∃ rs, Accepted false PestModel.C06.exRules rs := ⟨exOptimized, exRules_accepted⟩
 
+/-- an accepted grammar whose rule bodies have no "no meaning" case never makes the VM panic. -/
+theorem accepted_ns_grammar_never_panics (extras : Bool) (rules : List Rule) (rs : List ORule)
+    (h : Accepted extras rules rs) (uni : String → Option CharSet) (memchr detail : Bool) (name : String) (input : Str)
+    (hns : RulesNS { rules, input, extras, uni }) (hn : nameOK { rules, input, extras, uni } name = true) :
+    ∃ fuel, match PestModel.C01.vmParse rs uni memchr detail fuel name input with
+      | .ok _ => True
+      | .err _ => True
+      | .panic => False
+      | .fuel => False := by
+  obtain ⟨r, fuel, hm, hv⟩ := accepted_grammar_parses_as_documented extras rules rs h uni memchr detail name input
+  refine ⟨fuel, ?_⟩
+  obtain ⟨_, f0, hf0⟩ := hm
+  have hstuck : meaning rules extras uni f0 name input ≠ .stuck := call_never_stuck _ hns f0 .nonAtomic false name _ hn
+  cases ho : PestModel.C01.vmParse rs uni memchr detail fuel name input with
+  | ok st => trivial
+  | err st => trivial
+  | panic => rw [ho] at hv; rw [hf0] at hstuck; exact hstuck hv
+  | fuel => rw [ho] at hv; exact hv
+
 /-- **An accepted, closed grammar never makes the VM panic**: for every defined start rule and every input the VM model, run on the
 optimizer's output, ends with pairs or with an error — never with a panic (`undefined rule`, `pop`/`peek was called on empty stack`,
 an index or slice out of range) and never without an answer. -/
